@@ -14,7 +14,7 @@
    All statements are per slice of the product domain; C09_subspace ties slices to the flat array. *)
 From Coq Require Import List Arith Bool PeanoNat Lia Ring_theory ZArith QArith Qcanon.
 Import ListNotations.
-Require Import NV.C09.Model NV.C09.Proofs NV.C09.ProofsH NV.C09.ProofsK NV.C09.ProofsI.
+Require Import NV.C09.Model NV.C09.Proofs NV.C09.ProofsH NV.C09.ProofsK NV.C09.ProofsI NV.C09.ModelSHT NV.C09.ProofsSHT.
 Local Open Scope nat_scope.
 
 Definition is_ring (K : ring_ops) : Prop :=
@@ -270,6 +270,56 @@ Theorem C09_instance_hartley_zero_mode_flat :
   = (qprod (map Q2Qc dists) *
      rsum QcK (prodl shape) (fun j => fst (slice QcK (prodl shape) A (map toQC x) b a j)))%Qc.
 Proof. exact i_hartley_zero_mode_flat. Qed.
+
+(* ---- SHTOperator: the real packing of the a_lm (s2 ~ sqrt 2, sh ~ sqrt(1/2) are symbols) ---------- *)
+
+(* array lengths: twice the number of complex coefficients = LMSpace.size + lmax + 1, so that the
+   lengths computed by _slice_h2p / _slice_p2h are the ones their guards demand *)
+Theorem C09_sht_sizes :
+  forall lmax mmax, mmax <= lmax -> 2 * n_alm lmax mmax = lm_size lmax mmax + lmax + 1.
+Proof. exact sht_sizes. Qed.
+
+Theorem C09_sht_h2p_length :
+  forall lmax mmax, mmax <= lmax -> (lm_size lmax mmax + lmax + 1) / 2 = n_alm lmax mmax.
+Proof. exact sht_h2p_length. Qed.
+
+Theorem C09_sht_p2h_length :
+  forall lmax mmax, mmax <= lmax -> 2 * n_alm lmax mmax - lmax - 1 = lm_size lmax mmax.
+Proof. exact sht_p2h_length. Qed.
+
+(* the packing is a bijection between LM-space vectors and coefficient lists (m = 0 real, m > 0 complex) *)
+Theorem C09_sht_unpack_pack :
+  forall K, is_ring K -> forall s2 sh, op_mul K s2 sh = op_1 K ->
+  forall lmax k x, length x = S lmax + 2 * k -> unpack K s2 lmax (pack K sh lmax x) = x.
+Proof. exact unpack_pack. Qed.
+
+Theorem C09_sht_pack_unpack :
+  forall K, is_ring K -> forall s2 sh, op_mul K s2 sh = op_1 K ->
+  forall lmax rr, S lmax <= length rr -> Forall (fun p => snd p = op_0 K) (firstn (S lmax) rr) ->
+  pack K sh lmax (unpack K s2 lmax rr) = rr.
+Proof. exact pack_unpack. Qed.
+
+(* the two packings are adjoint to each other (m > 0 counted twice on the coefficient side), which is
+   why adjoint_times uses sqrt(2) where times uses sqrt(1/2) ... *)
+Theorem C09_sht_pack_adjoint :
+  forall K, is_ring K -> forall s2 sh, op_mul K (op_add K (op_1 K) (op_1 K)) sh = s2 ->
+  forall lmax k x rr, length x = S lmax + 2 * k -> S lmax <= length rr ->
+  wdot K lmax (pack K sh lmax x) rr = rdotl K x (unpack K s2 lmax rr).
+Proof. exact pack_adjoint. Qed.
+
+(* ... and the packing is an isometry: |x|^2 = sum_{m=0} |a_l0|^2 + 2 sum_{m>0} |a_lm|^2 *)
+Theorem C09_sht_pack_isometry :
+  forall K, is_ring K -> forall s2 sh, op_mul K s2 sh = op_1 K ->
+  op_mul K (op_add K (op_1 K) (op_1 K)) sh = s2 ->
+  forall lmax k x, length x = S lmax + 2 * k ->
+  wdot K lmax (pack K sh lmax x) (pack K sh lmax x) = rdotl K x x.
+Proof. exact pack_isometry. Qed.
+
+(* non-vacuity: Q[sqrt 2] is a ring in which sqrt 2 and sqrt(1/2) satisfy the two hypotheses *)
+Theorem C09_sht_symbols_exist :
+  is_ring Q2K /\ op_mul Q2K q2_s2 q2_sh = op_1 Q2K /\
+  op_mul Q2K (op_add Q2K (op_1 Q2K) (op_1 Q2K)) q2_sh = q2_s2.
+Proof. exact (conj Q2K_ring Q2K_symbols). Qed.
 
 (* non-vacuity: the hypotheses are satisfiable, and the model computes what one expects on a
    4 x 2 grid with distances (1/2, 2): zero mode of the all-ones field = volume = 4*2*(1/2)*2 = 8 *)
